@@ -84,6 +84,14 @@ SAM = _reg(Fmt("sam", ".sam", [("name", "id"), ("flag", "int"), ("chromosome", "
 VCF = _reg(Fmt("vcf", ".vcf", [("chromosome", "id"), ("position", "pos1"), ("id", "str1"), ("ref_seq", "seq"),
                                ("alt_seq", "seq"), ("quality", "str1"), ("filter", "str1"), ("info", "str1")],
                header="vcf", dataclass="VCFEntry", allow_extra=True, bufpath="bionumpy.io.vcf_buffers.VCFBuffer"))
+VCFINFO = _reg(Fmt("vcfinfo", ".vcf", [("chromosome", "id"), ("position", "pos1"), ("id", "str1"), ("ref_seq", "seq"),
+                                       ("alt_seq", "seq"), ("quality", "str1"), ("filter", "str1"), ("info", "vcfinfo")],
+                   header="vcfinfo", dataclass="VCFEntry", bufpath="bionumpy.io.vcf_buffers.VCFBuffer"))
+VCFGT = _reg(Fmt("vcfgt", ".vcf", [("chromosome", "id"), ("position", "pos1"), ("id", "str1"), ("ref_seq", "seq"),
+                                   ("alt_seq", "seq"), ("quality", "str1"), ("filter", "str1"), ("info", "str1"),
+                                   ("genotype", "vcfgt")],
+                 buffer="bionumpy.io.vcf_buffers.VCFBuffer2", header="vcfgt", dataclass="VCFEntryWithGenotypes",
+                 bufpath="bionumpy.io.vcf_buffers.VCFBuffer2"))
 FASTA2 = _reg(Fmt("fasta2", ".fa", [("name", "hdr"), ("sequence", "seq")], layout="fasta2",
                   buffer="bionumpy.io.one_line_buffer.TwoLineFastaBuffer", dataclass="SequenceEntry"))
 FASTAW = _reg(Fmt("fastaw", ".fa", [("name", "hdr"), ("sequence", "seq")], layout="fastaw",
@@ -112,7 +120,38 @@ def value_of(kind, text):
     if kind == "listint":
         parts = [p for p in text.split(",") if p != ""]
         return [int(p) for p in parts]
+    if kind == "vcfinfo":
+        return parse_info(text)
+    if kind == "vcfgt":
+        # FORMAT column, then one entry per sample; the genotype of a sample is its entry up to the first ':'
+        cols = text.split("\t")
+        return [c.split(":")[0] for c in cols[1:]]
     raise KeyError(kind)
+
+
+# typed INFO keys of the generated header: key -> (Number, Type)
+INFO_KEYS = {"DP": ("1", "Integer"), "AF": ("A", "Float"), "DB": ("0", "Flag"), "ST": ("1", "String"), "NL": (".", "Integer")}
+
+
+def parse_info(text):
+    """INFO text -> {key: value} for the keys present ('.' = no key)"""
+    out = {}
+    if text == ".":
+        return out
+    for item in text.split(";"):
+        key, _, val = item.partition("=")
+        num, typ = INFO_KEYS[key]
+        if typ == "Flag":
+            out[key] = True
+        elif num == "1" and typ == "Integer":
+            out[key] = int(val)
+        elif num == "1" and typ == "String":
+            out[key] = val
+        elif typ == "Float":
+            out[key] = [float(v) for v in val.split(",")]
+        else:
+            out[key] = [int(v) for v in val.split(",")]
+    return out
 
 
 # ---------------------------------------------------------------------------------------------
@@ -243,6 +282,37 @@ def gen_field(tape, kind, label, noncanon, ctx):
         n = 1 + tape.draw(3, label + ".n")
         return " ".join(f'{tape.choice(["gene_id", "transcript_id", "exon_number"], label + ".k")} '
                         f'"{gen_id(tape, label + ".v")}";' for _ in range(n))
+    if kind == "vcfinfo":
+        keys = [k for k in INFO_KEYS if tape.boolean(label + ".has", 1, 2)]
+        # keys in any order (they are looked up by name)
+        if len(keys) > 1 and tape.boolean(label + ".rev", 1, 3):
+            keys = keys[::-1]
+        items = []
+        for k in keys:
+            num, typ = INFO_KEYS[k]
+            if typ == "Flag":
+                items.append(k)
+            elif typ == "String":
+                items.append(k + "=" + gen_id(tape, label + ".s"))
+            elif typ == "Float":
+                n = 1 + tape.draw(2, label + ".nf")
+                items.append(k + "=" + ",".join(gen_float(tape, label + ".f", False) for _ in range(n)))
+            elif num == "1":
+                items.append(k + "=" + gen_int(tape, label + ".i", False, maxw=6))
+            else:
+                n = 1 + tape.draw(3, label + ".nl")
+                items.append(k + "=" + ",".join(gen_int(tape, label + ".l", False, maxw=4) for _ in range(n)))
+        return ";".join(items) if items else "."
+    if kind == "vcfgt":
+        ns = ctx.get("n_samples", 2)
+        with_extra = ctx.get("gt_extra", False)
+        ents = []
+        for _ in range(ns):
+            g = tape.choice(["0|1", "1|1", "0/1", "./.", "0|0", "1/2"], label + ".g")
+            if with_extra and tape.boolean(label + ".x", 1, 2):
+                g += ":" + gen_int(tape, label + ".dp", False, maxw=3) + (":" + gen_int(tape, label + ".gq", False, maxw=2) if tape.boolean(label + ".y") else "")
+            ents.append(g)
+        return ("GT:DP:GQ" if with_extra else "GT") + "\t" + "\t".join(ents)
     if kind == "rest":
         n = tape.weighted([(3, 0), (2, 1), (1, 2), (1, 3)], label + ".n")
         tags = []
@@ -266,6 +336,9 @@ def gen_records(tape, fmt, max_records, noncanon=True, min_records=1, style=None
         ctx["optint_mode"] = tape.weighted([(6, 0), (0 if style.get("no_missing") else 1, 1),
                                             (1 if style.get("allow_mixed_optint") else 0, 2)], "optint_mode")
     ctx["list_trailing_comma"] = tape.boolean("list_tc", 1, 3) if any(k == "listint" for _, k in fmt.fields) else False
+    if any(k == "vcfgt" for _, k in fmt.fields):
+        ctx["n_samples"] = 1 + tape.draw(3, "n_samples")
+        ctx["gt_extra"] = tape.boolean("gt_extra", 1, 2)
     while len(recs) < max_records and (len(recs) < min_records or tape.more("rec.more")):
         i = len(recs)
         texts = {}
@@ -313,6 +386,8 @@ def gen_style(tape, fmt, allow_crlf=True, allow_nofinal=True, allow_header=True)
         st["wrap"] = tape.weighted([(2, 60), (2, 1), (2, 2), (2, 3), (2, 5), (1, 7), (1, 12)], "wrap")
     if fmt.header == "vcf":
         st["header"] = True if tape.boolean("vcfheader", 5, 6) else st["header"]
+    if fmt.header in ("vcfinfo", "vcfgt"):
+        st["header"] = True
     return st
 
 
@@ -326,6 +401,14 @@ def header_text(fmt, style, records):
         if records and records[0]["extra_cols"]:
             cols += "\tFORMAT" + "".join(f"\tS{i}" for i in range(len(records[0]["extra_cols"]) - 1))
         return lines + [cols]
+    if fmt.header == "vcfinfo":
+        lines = ["##fileformat=VCFv4.2"]
+        for k, (num, typ) in INFO_KEYS.items():
+            lines.append(f'##INFO=<ID={k},Number={num},Type={typ},Description="{k.lower()}">')
+        return lines + ["#CHROM\tPOS\tID\tREF\tALT\tQUAL\tFILTER\tINFO"]
+    if fmt.header == "vcfgt":
+        ns = len(records[0]["texts"]["genotype"].split("\t")) - 1 if records else 1
+        return ["##fileformat=VCFv4.2", "#CHROM\tPOS\tID\tREF\tALT\tQUAL\tFILTER\tINFO\tFORMAT" + "".join(f"\tS{i}" for i in range(ns))]
     if fmt.header == "sam":
         return ["@HD\tVN:1.6\tSO:unsorted", "@SQ\tSN:chr1\tLN:1000"]
     if fmt.header == "hash":
@@ -422,6 +505,20 @@ def compare_field(kind, expected, got):
         if not isinstance(got, (int, float)) or isinstance(got, bool):
             return f"expected float {expected}, got {got!r}"
         return None if same(float(expected), float(got), rel=1e-6, abs_=1e-12) else f"expected {expected}, got {got}"
+    if kind == "vcfinfo":
+        if not isinstance(got, dict):
+            return f"expected INFO table, got {got!r}"
+        for key, (num, typ) in INFO_KEYS.items():
+            g = got.get(key, "<absent>")
+            if typ == "Flag":
+                if bool(g) != (key in expected) or g == "<absent>":
+                    return f"flag {key}: expected {key in expected}, got {g!r}"
+            elif key in expected:
+                if not same(expected[key], g, rel=1e-6, abs_=1e-12):
+                    return f"key {key}: expected {expected[key]!r}, got {g!r}"
+        return None
+    if kind == "vcfgt":
+        return None if (isinstance(got, list) and got == expected) else f"expected {expected}, got {got!r}"
     if kind in ("qual", "listint"):
         if not isinstance(got, list):
             return f"expected list {expected}, got {got!r}"
@@ -446,7 +543,10 @@ def table_rows(plain_table, fmt):
         row = {}
         for f in names:
             col = plain_table.get(f)
-            row[f] = col[i] if isinstance(col, list) and i < len(col) else "<absent>"
+            if isinstance(col, dict):      # a nested table (typed VCF INFO): one dict per row
+                row[f] = {k: (v[i] if isinstance(v, list) and i < len(v) else "<absent>") for k, v in col.items()}
+            else:
+                row[f] = col[i] if isinstance(col, list) and i < len(col) else "<absent>"
         rows.append(row)
     return rows
 
@@ -476,6 +576,7 @@ _RX = {
     "phase": _re.compile(r"^[.012]$"),
     "cigar": _re.compile(r"^(\*|([0-9]+[MIDNSHP=X])+)$"),
     "gtfattr": _re.compile(r"^[ -~]*$"),
+    "vcfinfo": _re.compile(r"^(\.|[A-Z]+(=[^;\t ]+)?(;[A-Z]+(=[^;\t ]+)?)*)$"),
 }
 
 
@@ -508,7 +609,8 @@ def validate(fmt, body, style, lenient_extra=False):
         recs = []
         ncols_first = None
         nf = len(fmt.fields)
-        has_rest = fmt.fields[-1][1] == "rest"
+        last_kind = fmt.fields[-1][1]
+        has_rest = last_kind in ("rest", "vcfgt")     # the last field of the entry type spans all remaining columns
         nfixed = nf - 1 if has_rest else nf
         for i, ln in enumerate(lines):
             if "\r" in ln or ln == "":
@@ -534,8 +636,15 @@ def validate(fmt, body, style, lenient_extra=False):
             extra = []
             if has_rest:
                 rest = cols[nfixed:]
-                if any(not _re.match(r"^[A-Za-z][A-Za-z0-9]:[AifZHB]:[ -~]*$", t) for t in rest):
+                if last_kind == "rest" and any(not _re.match(r"^[A-Za-z][A-Za-z0-9]:[AifZHB]:[ -~]*$", t) for t in rest):
                     return ("bad", i, "field:" + fmt.fields[-1][0])
+                if last_kind == "vcfgt":
+                    if len(rest) < 2 or any(c == "" for c in rest):
+                        return ("bad", i, "columns")
+                    if ncols_first is None:
+                        ncols_first = len(cols)
+                    elif len(cols) != ncols_first:
+                        return ("bad", i, "columns")
                 texts[fmt.fields[-1][0]] = "\t".join(rest)
             else:
                 extra = cols[nfixed:]
